@@ -308,5 +308,5 @@ Proof.
   inversion H as [|? ? Hb Hr]; subst. constructor; [|exact (IH Hr)].
   unfold dec_task in *. destruct b as [|m0 [|s rest]]; cbn [t_steps t_cur t_iv t_log t_fin t_mod] in *;
     (split; [exact Hb|]); repeat (split; [reflexivity|]); cbn [t_mod]; try lia.
-  assert (m0 mod mods < mods) by (apply N.mod_upper_bound; unfold mods; lia). lia.
+  assert (m0 mod mods < mods) by (apply N.mod_upper_bound; unfold mods; generalize (nm mod 2); intros; lia). lia.
 Qed.
